@@ -20,10 +20,12 @@ UConst == {IntL(0), IntL(1), IntL(3), IntL(8)}
 UDyn == {Rd(A, "uval")}
 UMatrix == {Bin(op, x, y) : op \in {"+", "-", "*", "/", "%", "&", "|", "^", "<<", ">>"}, x \in UDyn, y \in UConst \cup {Rd(B, "uval")}}
            \cup {Bin(op, y, x) : op \in {"+", "*", "/", "%", "&", "|", "^"}, x \in UDyn, y \in UConst}
+           \cup {Call(f, <<x, y>>) : f \in {"Math.max", "Math.min"}, x \in UDyn, y \in UConst \cup {Rd(B, "uval")}}
+           \cup {Call(f, <<y, x>>) : f \in {"Math.max", "Math.min"}, x \in UDyn, y \in UConst}
 DConst == {Dbl(0), Dbl(1), Dbl(2), Dbl(6), Dbl(8), Un("-", Dbl(6)), Un("-", Dbl(1))}
 DDyn == {Rd(A, "dval")}
 W == Rd(B, "dval")
-DMatrix == {Bin("+", Bin(op, x, y), W) : op \in {"+", "-", "*", "/"}, x \in DConst \cup DDyn, y \in DConst \cup DDyn}
+DMatrix == {Bin("+", Bin(op, x, y), W) : op \in {"+", "-", "*", "/", "%"}, x \in DConst \cup DDyn, y \in DConst \cup DDyn}
            \cup {Tern(Bin(op, x, y), W, Dbl(2)) : op \in CmpOps, x \in DConst \cup DDyn, y \in DConst \cup DDyn}
 BConst == {Bool(TRUE), Bool(FALSE)}
 BDyn == {Rd(A, "flag")}
